@@ -51,6 +51,38 @@ Theorem C20_precedence_order : forall e fs,
 Proof. intros; split; [intros; apply precedence_global; assumption|apply precedence_no_global]. Qed.
 Print Assumptions C20_precedence_order.
 
+(** Repeated paths.  Nothing above assumes the consulted paths are distinct: [e] is
+    arbitrary, so $XDG_CONFIG_DIRS may list a directory twice (A:B:A) and
+    $XDG_CONFIG_HOME may equal a common directory; [precedence] then has the same file at
+    several POSITIONS and every position is loaded, the later load winning.  Spelled out:
+    whatever the highest position that sets a key says is the effective value, for ANY
+    lower part [lo] of the list (which may contain the same path again, or any other
+    file setting the same key) — first-listed common dir above the other common dirs, the
+    user file above all of them. *)
+Theorem C20_highest_position_wins : forall e fs c c' hi path v lo,
+  skip_requested e = false -> init e fs c = COk c' ->
+  precedence e fs = (hi ++ (path, v) :: lo)%list ->
+  (forall s x, In s scalar_props ->
+     (forall q, In q hi -> file_sets (VStr s) (snd q) = None) ->
+     file_sets (VStr s) v = Some x -> setting s c' = Some x)
+  /\ (forall k x,
+     (forall q, In q hi -> file_sets_in "vars" k (snd q) = None) ->
+     file_sets_in "vars" k v = Some x -> dict_get k (c_vars c') = Some x)
+  /\ (forall k x,
+     (forall q, In q hi -> file_sets_in "shortcuts" k (snd q) = None) ->
+     file_sets_in "shortcuts" k v = Some x -> dict_get k (c_shortcuts c') = Some x).
+Proof. exact init_highest_position_wins. Qed.
+Print Assumptions C20_highest_position_wins.
+
+(** [config_loaded_paths] gains one entry per consulted position whose file is a
+    non-empty mapping, in load order (lowest precedence first) — a path consulted twice
+    is loaded twice and listed twice. *)
+Theorem C20_loaded_paths : forall e fs c c',
+  skip_requested e = false -> init e fs c = COk c' ->
+  c_loaded c' = (c_loaded c ++ loaded_of (rev (precedence e fs)))%list.
+Proof. exact init_loaded. Qed.
+Print Assumptions C20_loaded_paths.
+
 (** Files every clause accepts are accepted: [init] does return a configuration (so the
     two theorems above are not vacuous for any such file set). *)
 Theorem C20_wellformed_accepted : forall e fs c,
@@ -222,3 +254,32 @@ Example C20_rejections_nonvacuous :
      = COk (with_paths (defaults env0) (user_path env0) (common_paths env0))
   /\ is_known (VStr "bogus") = false /\ is_mapping (VList []) = false.
 Proof. vm_compute. repeat split. left; reflexivity. Qed.
+
+(** repeated paths: XDG_CONFIG_DIRS = c1:c2:c1 (c1 first-listed, so it beats c2 although it
+    is also listed last), and XDG_CONFIG_HOME = a common dir (the user file beats c1) *)
+Definition env_aba : env :=
+  mkEnv None None None (Some "/SB/c1:/SB/c2:/SB/c1") (Some "/SB/u") "/SB/home" None None None.
+Definition env_user_is_c2 : env :=
+  mkEnv None None None (Some "/SB/c1:/SB/c2") (Some "/SB/c2") "/SB/home" None None None.
+Definition fs_two : fsys := fs_of_list
+  [ ("/SB/c1/pypyr/config.yaml",
+       y [("default_group", VStr "c1"); ("vars", y [("a", VStr "c1")]);
+          ("shortcuts", y [("s1", VStr "c1")])]);
+    ("/SB/c2/pypyr/config.yaml",
+       y [("default_group", VStr "c2"); ("vars", y [("a", VStr "c2")]);
+          ("shortcuts", y [("s1", VStr "c2")])]) ].
+Definition loaded (c : cres config) : list string :=
+  match c with COk c => c_loaded c | _ => [] end.
+
+Example C20_repeated_paths_nonvacuous :
+  let r := init env_aba fs_two (defaults env_aba) in
+  let r2 := init env_user_is_c2 fs_two (defaults env_user_is_c2) in
+  map fst (precedence env_aba fs_two) =
+    ["pypyr-config.yaml"; "pyproject.toml"; "/SB/u/pypyr/config.yaml";
+     "/SB/c1/pypyr/config.yaml"; "/SB/c2/pypyr/config.yaml"; "/SB/c1/pypyr/config.yaml"]
+  /\ look_all r "default_group" = Some (VStr "c1") /\ look_var r "a" = Some (VStr "c1")
+  /\ loaded r = ["/SB/c1/pypyr/config.yaml"; "/SB/c2/pypyr/config.yaml"; "/SB/c1/pypyr/config.yaml"]
+  /\ user_path env_user_is_c2 = "/SB/c2/pypyr/config.yaml"
+  /\ look_all r2 "default_group" = Some (VStr "c2") /\ look_var r2 "a" = Some (VStr "c2")
+  /\ loaded r2 = ["/SB/c2/pypyr/config.yaml"; "/SB/c1/pypyr/config.yaml"; "/SB/c2/pypyr/config.yaml"].
+Proof. vm_compute. repeat split. Qed.
